@@ -156,6 +156,54 @@ def wide_shard(sh):
     return st
 
 
+SPECIAL = [float('-inf'), 5e32, -1e30, float('nan'), 0.0, -0.0, float('inf')]
+
+
+def special_shard(sh):
+    """unusual score values (infinities, NaN, huge magnitudes, signed zeros) in listed and unlisted categories, and other values of the
+    large_negative_value parameter: listed categories keep their bits, unlisted ones become exactly the parameter"""
+    lo, hi = sh
+    parsing = model()
+    from depccg.types import Token, ScoringResult
+    st = core.Stats()
+    cats = [K.P(c) for c in ['NP', 'S[dcl]\\NP', 'N/N']]
+    rows = list(itertools.product(SPECIAL, repeat=3))[lo:hi]
+    subsets = [s for r in (1, 2, 3) for s in itertools.combinations(range(3), r)]
+    for row in rows:
+        for sub in subsets:
+            for lnv in (None, float('-inf'), -1.0):
+                st.count('cases')
+                st.count('special_value_cases')
+                st.count('nontrivial')
+                tag = np.asarray([row, [-1.0, -2.0, -3.0]], dtype=np.float32)
+                dep = np.asarray([[-0.5, float('-inf'), 0.0], [5e32, -0.25, float('nan')]], dtype=np.float32)
+                orig_t, orig_d = tag.copy(), dep.copy()
+                docs = [[Token.of_word('a'), Token.of_word('b')]]
+                kw = {} if lnv is None else dict(large_negative_value=lnv)
+                base = dict(doc=[['a', 'b']], dictionary={'a': [str(cats[j]) for j in sub]}, form='list', ncat=3, engine='c17_special',
+                            row=[repr(float(v)) for v in row], large_negative_value=repr(lnv))
+                try:
+                    rd, rs = parsing.apply_category_filters(docs, [ScoringResult(tag, dep)], list(cats), {'a': [cats[j] for j in sub]}, **kw)
+                except Exception as e:
+                    st.violation('raises', f'apply_category_filters raised {e!r}', **base)
+                    continue
+                got_t, got_d = rs[0]
+                exp = orig_t.copy()
+                for j in range(3):
+                    if j not in sub:
+                        exp[0, j] = np.float32(LNV if lnv is None else lnv)
+                same = got_t.shape == exp.shape and np.array_equal(got_t.view(np.uint32) if got_t.dtype == np.float32 else got_t, exp.view(np.uint32)) \
+                    if got_t.dtype == np.float32 else np.array_equal(got_t, exp, equal_nan=True)
+                if not same and got_t.shape == exp.shape and np.array_equal(got_t, exp, equal_nan=True) and np.array_equal(np.signbit(got_t), np.signbit(exp)):
+                    same = True       # NaN payloads are not compared
+                if not same:
+                    st.violation('mask/special_values', f'tag row {[repr(float(v)) for v in row]} of a dictionary word, listed {sub}, large_negative_value {lnv}: got {got_t[0].tolist()}, expected {exp[0].tolist()}', **base)
+                if not np.array_equal(got_t[1], orig_t[1]) or not np.array_equal(got_d, orig_d, equal_nan=True):
+                    st.violation('dep_scores', 'scores of another word / dependency scores were modified', **base)
+        st.observe('special', [repr(float(v)) for v in row])
+    return st
+
+
 def data_part(st):
     """finite and complete: every shipped dictionary category is in its inventory; every shipped category string is well formed"""
     for variant in ('en',):
@@ -221,11 +269,13 @@ def check(tier, seed):
     st = core.pmap(shard_fn, core.rotate(shards, seed))
     n1 = len(wide_sets()[0])
     st.merge(core.pmap(wide_shard, [(lo, min(n1, lo + 24)) for lo in range(0, n1, 24)]))
+    ns = len(SPECIAL) ** 3
+    st.merge(core.pmap(special_shard, [(lo, min(ns, lo + 32)) for lo in range(0, ns, 32)]))
     data_part(st)
     st.sample(dict(doc=[['a', 'b']], dictionary={'a': ['NP']}, expected='row of a keeps NP and gets -1e33 elsewhere; row of b untouched'))
     return core.finish(PROP, tier, seed, 'exploration', st, t0,
                        rule=('every document of <=2 sentences x <=2 tokens over 3 words x every dictionary mapping <=2 of the words to every non-empty subset of 3 (4 in thorough) categories, list and single-sentence call forms; '
-                             'a 16-category inventory (two-digit positions) with every dictionary {a: <=3 positions, b: <=2 positions} on a fixed 5-token document; '
+                             'a 16-category inventory (two-digit positions) with every dictionary {a: <=3 positions, b: <=2 positions} on a fixed 5-token document; every tag row over {-inf, inf, NaN, 5e32, -1e30, 0.0, -0.0} x every listed subset x large_negative_value {default, -inf, -1}; '
                              'distinct score in every cell: the result must equal the reference mask from the statement, dependency arrays bit-identical, tokens same objects in the same order. '
                              'Data part (complete): every cat_dict.en entry is in targets.en by value, all 3469 shipped category strings are well formed, inventories duplicate-free, the shipped dictionary applied to the shipped inventory. '
                              'non-trivial = documents containing a dictionary word'),
@@ -246,6 +296,13 @@ def replay(rec):
         hits = {k: v for k, v in st.viol.items() if any(r['dictionary'] == rec['dictionary'] and r['form'] == rec['form'] for r in v)}
         for k, v in (hits or st.viol).items():
             print('REPRODUCED', k, v[0]['what'])
+        return 1 if st.viol else 0
+    if rec.get('engine') == 'c17_special':
+        rows = [[repr(float(v)) for v in r] for r in itertools.product(SPECIAL, repeat=3)]
+        k = rows.index(rec['row'])
+        st = special_shard((k, k + 1))
+        for kk, v in st.viol.items():
+            print('REPRODUCED', kk, v[0]['what'])
         return 1 if st.viol else 0
     if rec.get('engine') == 'c17_wide':
         s1s, _ = wide_sets()
